@@ -41,6 +41,14 @@ def gen(tier, seed):
                     steps = ['i.0.%s' % (m[a:b].hex() or '-') for a, b in zip(cuts, cuts[1:])]
                     fin = rng.choice(['r.0', 'rr.0.%d' % ol])
                     yield 'mac hmac:%s %s ob.0 %s %s #k=%s/%s' % (d, key, ' '.join(steps), fin, kcls, style)
+    # every key length and every message length 0..=300 (one call each), for a 64-byte-block and a 128-byte-block hash, a sponge and BLAKE2
+    for d in ('sha256', 'sha512', 'sha3_256', 'blake2b:64', 'sha1', 'ripemd160'):
+        _, bs, ol = o.digest_fn(d)
+        for n in range(0, 301):
+            if d in ('sha1', 'ripemd160') and n % 3 != seed % 3:
+                continue
+            yield 'mac hmac:%s %s ob.0 i.0.%s r.0 #k=sweep/%d' % (d, rng.data(n), rng.data(rng.choice([0, 1, 20, 64, 100])), n)
+            yield 'mac hmac:%s %s ob.0 i.0.%s rr.0.%d #m=sweep/%d' % (d, rng.data(rng.choice([1, 16, 32, bs])), rng.data(n), ol, n)
     yield from huge(rng)      # tagged #huge: only in the first generator pass of a thorough run, and not re-run by C20
 
 
